@@ -9,7 +9,7 @@ namespace AY
 /-! ### the deleting branch -/
 
 /-- `other` is deleting and nothing of `self` survives the filter: the early exit -/
-theorem compMerge_del_emptied (rec : Node → Node → Except Err (Node × Bool)) {sf sk scs of ok ocs}
+theorem c04_compMerge_del_emptied (rec : Node → Node → Except Err (Node × Bool)) {sf sk scs of ok ocs}
     (hdel : eDel (.comp of ok ocs) = true) (hprio : hasPrio of sf true = true)
     (hfil : (filterNode (maybeKeep (.comp of ok ocs)) [] (.comp sf sk scs)).1 = .comp sf sk []) :
     compMerge rec sf sk scs (.comp of ok ocs) =
@@ -25,20 +25,20 @@ theorem compMerge_del_emptied (rec : Node → Node → Except Err (Node × Bool)
 
 /-- the emptied `self` never changes the class of a deleting `other` when `self` is a plain
     mapping or list -/
-theorem maybePromote_emptied_plain (F sf : Flags) (ok sk : CompKind) (ocs : List (Key × Node))
+theorem c04_maybePromote_emptied_plain (F sf : Flags) (ok sk : CompKind) (ocs : List (Key × Node))
     (hsk : sk = .dict ∨ sk = .list) :
     maybePromote F ok ocs (.comp sf sk []) = .ok (.comp F ok ocs, true) := by
   rcases hsk with h | h <;> subst h <;> cases ok <;>
     simp [maybePromote, CompKind.sameClass, CompKind.strictSub, CompKind.isPlain]
 
-theorem maybePromote_emptied_same (F sf : Flags) (ok sk : CompKind) (ocs : List (Key × Node))
+theorem c04_maybePromote_emptied_same (F sf : Flags) (ok sk : CompKind) (ocs : List (Key × Node))
     (h : ok.sameClass sk = true) :
     maybePromote F ok ocs (.comp sf sk []) = .ok (.comp F ok ocs, true) := by
   simp [maybePromote, h]
 
 /-- a deleting `other` over a mapping `self` with distinct keys: what the filter leaves decides
     between the early exit and the key loop over the survivors -/
-theorem compMerge_del_dict (rec : Node → Node → Except Err (Node × Bool)) {sf sk scs of ok ocs}
+theorem c04_compMerge_del_dict (rec : Node → Node → Except Err (Node × Bool)) {sf sk scs of ok ocs}
     (hdel : eDel (.comp of ok ocs) = true) (hsk : sk.isDictFam = true) (hn : keysNodup scs = true) :
     compMerge rec sf sk scs (.comp of ok ocs) =
       if (keptChildren (maybeKeep (.comp of ok ocs)) [] scs).isEmpty && hasPrio of sf true then
@@ -54,7 +54,7 @@ theorem compMerge_del_dict (rec : Node → Node → Except Err (Node × Bool)) {
         match mergeLoop rec sf sk (keptChildren (maybeKeep (.comp of ok ocs)) [] scs) ocs with
         | .error e => .error e
         | .ok scs' => finishMerge sf sk scs' (.comp of ok ocs) := by
-  simp only [compMerge, hdel, if_true, filterNode_dict_kept _ _ sf sk scs hsk hn, Node.children]
+  simp only [compMerge, hdel, if_true, c04_filterNode_dict_kept _ _ sf sk scs hsk hn, Node.children]
   rfl
 
 /-! ### keys after one iteration of the key loop (mapping family) -/
@@ -72,7 +72,7 @@ def stepRemoves (rec : Node → Node → Except Err (Node × Bool)) (sk : CompKi
         !nw.truthy && !hasPrio nw.flags kv.2.flags false && kv.2.flags.del == some true
       else !same && !nw.truthy && nw.flags.del == some true
 
-theorem akeys_aset {α : Type} (k : Key) (v : α) (l : List (Key × α)) :
+theorem c04_akeys_aset {α : Type} (k : Key) (v : α) (l : List (Key × α)) :
     akeys (aset k v l) = if k ∈ akeys l then akeys l else akeys l ++ [k] := by
   cases h : alookup k l with
   | none =>
@@ -85,32 +85,32 @@ theorem akeys_aset {α : Type} (k : Key) (v : α) (l : List (Key × α)) :
     rw [keysOf_aset_of_some k v l (by simp [h])]
     simp [hm]
 
-theorem getChild_dict {sk : CompKind} (hsk : sk.isDictFam = true) (k : Key) (acc : List (Key × Node)) :
+theorem c04_getChild_dict {sk : CompKind} (hsk : sk.isDictFam = true) (k : Key) (acc : List (Key × Node)) :
     getChild sk k acc = alookup k acc := by simp [getChild, hsk]
 
-theorem setChild_dictFam {sf : Flags} {sk : CompKind} (hsk : sk.isDictFam = true) (k : Key) (v : Node)
+theorem c04_setChild_dictFam {sf : Flags} {sk : CompKind} (hsk : sk.isDictFam = true) (k : Key) (v : Node)
     (acc : List (Key × Node)) : setChild sf sk k v acc = .ok (aset k (adopt sf sk v) acc) := by
   simp [setChild, hsk]
 
-theorem replaceChild_dictFam {sk : CompKind} (hsk : sk.isDictFam = true) (k : Key) (v : Node)
+theorem c04_replaceChild_dictFam {sk : CompKind} (hsk : sk.isDictFam = true) (k : Key) (v : Node)
     (acc : List (Key × Node)) : replaceChild sk k v acc = aset k v acc := by
   simp [replaceChild, hsk]
 
-theorem removeChildE_dictFam {sf : Flags} {sk : CompKind} (hsk : sk.isDictFam = true) (k : Key)
+theorem c04_removeChildE_dictFam {sf : Flags} {sk : CompKind} (hsk : sk.isDictFam = true) (k : Key)
     (acc : List (Key × Node)) (h : (alookup k acc).isSome = true) :
     removeChildE sf sk k acc = .ok (aerase k acc) := by
   simp [removeChildE, removeChild, hsk, ahas, h]
 
 /-- keys after one successful iteration: the key is removed exactly when `stepRemoves`, appended
     when it was missing, and the key list is unchanged otherwise -/
-theorem mergeStep_keys (rec : Node → Node → Except Err (Node × Bool)) {sf : Flags} {sk : CompKind}
+theorem c04_mergeStep_keys (rec : Node → Node → Except Err (Node × Bool)) {sf : Flags} {sk : CompKind}
     (hsk : sk.isDictFam = true) {acc acc' : List (Key × Node)} {kv : Key × Node}
     (h : mergeStep rec sf sk acc kv = .ok acc') :
     akeys acc' =
       if stepRemoves rec sk acc kv then (akeys acc).erase kv.1
       else if kv.1 ∈ akeys acc then akeys acc else akeys acc ++ [kv.1] := by
-  simp only [mergeStep, getChild_dict hsk, setChild_dictFam hsk, replaceChild_dictFam hsk] at h
-  simp only [stepRemoves, getChild_dict hsk]
+  simp only [mergeStep, c04_getChild_dict hsk, c04_setChild_dictFam hsk, c04_replaceChild_dictFam hsk] at h
+  simp only [stepRemoves, c04_getChild_dict hsk]
   cases hl : alookup kv.1 acc with
   | none =>
     simp only [hl] at h
@@ -118,11 +118,11 @@ theorem mergeStep_keys (rec : Node → Node → Except Err (Node × Bool)) {sf :
     · cases h
     · injection h with h
       subst h
-      simp [akeys_aset]
+      simp [c04_akeys_aset]
   | some child =>
     have hsome : (alookup kv.1 acc).isSome = true := by simp [hl]
     have hm : kv.1 ∈ akeys acc := (ahas_iff_mem kv.1 acc).1 (by simp [ahas, hl])
-    simp only [hl, removeChildE_dictFam hsk kv.1 acc hsome] at h
+    simp only [hl, c04_removeChildE_dictFam hsk kv.1 acc hsome] at h
     cases hr : rec child kv.2 with
     | error e => simp [hr] at h
     | ok res =>
@@ -137,14 +137,14 @@ theorem mergeStep_keys (rec : Node → Node → Except Err (Node × Bool)) {sf :
           rw [if_pos hcond, keysOf_aerase]
         · rename_i hcond
           rw [if_neg hcond]
-          split at h <;> (injection h with h; subst h; simp [akeys_aset, hm])
+          split at h <;> (injection h with h; subst h; simp [c04_akeys_aset, hm])
       | false =>
         simp only [hc, Bool.false_eq_true, if_false] at h ⊢
         cases hs : same with
         | true =>
           simp only [hs, if_true] at h
           injection h with h; subst h
-          simp [akeys_aset, hm]
+          simp [c04_akeys_aset, hm]
         | false =>
           simp only [hs, Bool.false_eq_true, if_false] at h
           split at h
@@ -158,16 +158,16 @@ theorem mergeStep_keys (rec : Node → Node → Except Err (Node × Bool)) {sf :
               injection h with h; subst h
               have : ¬ ((!false && !nw.truthy && nw.flags.del == some true) = true) := by simpa using hcond
               rw [if_neg this]
-              simp [akeys_aset, hm]
+              simp [c04_akeys_aset, hm]
 
 /-- the recursive merge hands back the flags `delete` of the newer leaf when it replaces a leaf -/
 def RecDelFaithful (rec : Node → Node → Except Err (Node × Bool)) : Prop :=
   ∀ c v nw, c.isComp = false → rec c v = .ok (nw, false) → nw.flags.del = v.flags.del
 
-theorem flags_setFlags (n : Node) (f : Flags) : (n.setFlags f).flags = f := by
+theorem c04_flags_setFlags (n : Node) (f : Flags) : (n.setFlags f).flags = f := by
   cases n <;> rfl
 
-theorem mergeF_delFaithful (fuel : Nat) : RecDelFaithful (mergeF fuel) := by
+theorem c04_mergeF_delFaithful (fuel : Nat) : RecDelFaithful (mergeF fuel) := by
   intro c v nw hc h
   cases fuel with
   | zero => simp [mergeF] at h
@@ -179,14 +179,14 @@ theorem mergeF_delFaithful (fuel : Nat) : RecDelFaithful (mergeF fuel) := by
       split at h
       · injection h with h; injection h with _ h2; cases h2
       · injection h with h; injection h with h1 _
-        rw [← h1, flags_setFlags]; rfl
+        rw [← h1, c04_flags_setFlags]; rfl
 
 /-- no value of the newer mapping carries an explicit `!del` -/
 def noExplicitDel : List (Key × Node) → Bool
   | [] => true
   | (_, v) :: rest => !(v.flags.del == some true) && noExplicitDel rest
 
-theorem stepRemoves_false (rec : Node → Node → Except Err (Node × Bool)) (hrec : RecDelFaithful rec)
+theorem c04_stepRemoves_false (rec : Node → Node → Except Err (Node × Bool)) (hrec : RecDelFaithful rec)
     (sk : CompKind) (acc : List (Key × Node)) (kv : Key × Node)
     (hv : (kv.2.flags.del == some true) = false) : stepRemoves rec sk acc kv = false := by
   simp only [stepRemoves]
@@ -210,7 +210,7 @@ def newKeys : List Key → List Key → List Key
   | _, [] => []
   | seen, k :: r => if k ∈ seen then newKeys seen r else k :: newKeys (seen ++ [k]) r
 
-theorem mergeLoop_keys (rec : Node → Node → Except Err (Node × Bool)) (hrec : RecDelFaithful rec)
+theorem c04_mergeLoop_keys (rec : Node → Node → Except Err (Node × Bool)) (hrec : RecDelFaithful rec)
     {sf : Flags} {sk : CompKind} (hsk : sk.isDictFam = true) :
     ∀ (ocs acc acc' : List (Key × Node)), noExplicitDel ocs = true →
       mergeLoop rec sf sk acc ocs = .ok acc' →
@@ -225,17 +225,17 @@ theorem mergeLoop_keys (rec : Node → Node → Except Err (Node × Bool)) (hrec
     | error e => simp [hs] at h
     | ok acc1 =>
       simp only [hs] at h
-      have hk := mergeStep_keys rec hsk hs
-      rw [stepRemoves_false rec hrec sk acc (k, v) hd'.1] at hk
+      have hk := c04_mergeStep_keys rec hsk hs
+      rw [c04_stepRemoves_false rec hrec sk acc (k, v) hd'.1] at hk
       simp only [Bool.false_eq_true, if_false] at hk
-      rw [mergeLoop_keys rec hrec hsk rest acc1 acc' hd'.2 h, hk]
+      rw [c04_mergeLoop_keys rec hrec hsk rest acc1 acc' hd'.2 h, hk]
       by_cases hm : k ∈ akeys acc
       · simp [hm, akeys, newKeys]
       · simp [hm, akeys, newKeys]
 
 /-- a key common to both mappings (distinct keys in the newer one, no removal): its value is the
     result of the recursive merge of the two old values -/
-theorem mergeLoop_common (rec : Node → Node → Except Err (Node × Bool)) (hrec : RecDelFaithful rec)
+theorem c04_mergeLoop_common (rec : Node → Node → Except Err (Node × Bool)) (hrec : RecDelFaithful rec)
     {sf : Flags} {sk : CompKind} (hsk : sk.isDictFam = true) :
     ∀ (ocs acc acc' : List (Key × Node)), noExplicitDel ocs = true → keysNodup ocs = true →
       mergeLoop rec sf sk acc ocs = .ok acc' →
@@ -258,9 +258,9 @@ theorem mergeLoop_common (rec : Node → Node → Except Err (Node × Bool)) (hr
         subst hv
         have hrest : alookup k' rest = none := (alookup_none_iff k' rest).2 (by simpa using hn'.1)
         rw [mergeLoop_frame rec hsk rest acc1 acc' h k' hrest]
-        have hrm := stepRemoves_false rec hrec sk acc (k', v') hd'.1
-        simp only [stepRemoves, getChild_dict hsk, hc] at hrm
-        simp only [mergeStep, getChild_dict hsk, hc, setChild_dictFam hsk, replaceChild_dictFam hsk] at hs
+        have hrm := c04_stepRemoves_false rec hrec sk acc (k', v') hd'.1
+        simp only [stepRemoves, c04_getChild_dict hsk, hc] at hrm
+        simp only [mergeStep, c04_getChild_dict hsk, hc, c04_setChild_dictFam hsk, c04_replaceChild_dictFam hsk] at hs
         cases hr : rec c v' with
         | error e => simp [hr] at hs
         | ok res =>
@@ -294,12 +294,12 @@ theorem mergeLoop_common (rec : Node → Node → Except Err (Node × Bool)) (hr
       · simp only [alookup, e, if_false] at hv
         have hc1 : alookup k acc1 = some c := by
           rw [mergeStep_frame rec hsk hs k e]; exact hc
-        exact mergeLoop_common rec hrec hsk rest acc1 acc' hd'.2 hn'.2 h k c v hc1 hv
+        exact c04_mergeLoop_common rec hrec hsk rest acc1 acc' hd'.2 hn'.2 h k c v hc1 hv
 
 /-! ### remove-this-key cases of the loop body -/
 
 /-- leaf child: the recursive merge returned a different object that is falsy and explicitly `!del` -/
-theorem mergeStep_leaf_removed (rec : Node → Node → Except Err (Node × Bool)) (sf : Flags) (sk : CompKind)
+theorem c04_mergeStep_leaf_removed (rec : Node → Node → Except Err (Node × Bool)) (sf : Flags) (sk : CompKind)
     (acc : List (Key × Node)) (k : Key) (v child nw : Node)
     (hget : getChild sk k acc = some child) (hleaf : child.isComp = false)
     (hrec : rec child v = .ok (nw, false)) (hnl : nw.isComp = false)
@@ -313,7 +313,7 @@ theorem mergeStep_leaf_removed (rec : Node → Node → Except Err (Node × Bool
 
 /-- composed child: it came out empty, does not outrank the newer value, and the newer value is
     explicitly `!del` -/
-theorem mergeStep_comp_removed (rec : Node → Node → Except Err (Node × Bool)) (sf : Flags) (sk : CompKind)
+theorem c04_mergeStep_comp_removed (rec : Node → Node → Except Err (Node × Bool)) (sf : Flags) (sk : CompKind)
     (acc : List (Key × Node)) (k : Key) (v child nw : Node) (same : Bool)
     (hget : getChild sk k acc = some child) (hcomp : child.isComp = true)
     (hrec : rec child v = .ok (nw, same))
@@ -325,27 +325,27 @@ theorem mergeStep_comp_removed (rec : Node → Node → Except Err (Node × Bool
 
 /-! ### the tail of a mapping ⊕ mapping merge keeps the keys of the loop result -/
 
-theorem akeys_applyKwList (kw : ChildKw) : ∀ cs : List (Key × Node), akeys (applyKwList kw cs) = akeys cs
+theorem c04_akeys_applyKwList (kw : ChildKw) : ∀ cs : List (Key × Node), akeys (applyKwList kw cs) = akeys cs
   | [] => rfl
-  | (k, c) :: rest => by simp [applyKwList, akeys, akeys_applyKwList kw rest]
+  | (k, c) :: rest => by simp [applyKwList, akeys, c04_akeys_applyKwList kw rest]
 
-theorem akeys_children_propagate (n : Node) : akeys (propagate n).children = akeys n.children := by
+theorem c04_akeys_children_propagate (n : Node) : akeys (propagate n).children = akeys n.children := by
   cases n with
   | leaf f k => rfl
   | comp f k cs =>
     simp only [propagate]
     split
     · rfl
-    · simp [Node.children, akeys_applyKwList]
+    · simp [Node.children, c04_akeys_applyKwList]
 
-theorem finishMerge_dict_keys (sf of : Flags) (scs' ocs : List (Key × Node)) (r : Node) (s : Bool)
+theorem c04_finishMerge_dict_keys (sf of : Flags) (scs' ocs : List (Key × Node)) (r : Node) (s : Bool)
     (h : finishMerge sf .dict scs' (.comp of .dict ocs) = .ok (r, s)) :
     akeys r.children = akeys scs' ∧ s = true := by
   simp only [finishMerge, Node.flags, maybePromote, CompKind.sameClass, if_true] at h
   split at h
   · injection h with h
     injection h with h h2
-    rw [← h, akeys_children_propagate]
+    rw [← h, c04_akeys_children_propagate]
     exact ⟨rfl, h2.symm⟩
   · injection h with h
     injection h with h h2
@@ -354,7 +354,7 @@ theorem finishMerge_dict_keys (sf of : Flags) (scs' ocs : List (Key × Node)) (r
 
 /-! ### `get_node` after an in-place replacement -/
 
-theorem getNode_setNodeAt (v : Node) : ∀ (path : Path) (root x : Node), getNode root path = some x →
+theorem c04_getNode_setNodeAt (v : Node) : ∀ (path : Path) (root x : Node), getNode root path = some x →
     getNode (setNodeAt root path v) path = some v
   | [], _, _, _ => rfl
   | key :: rest, .leaf f k, x, h => by simp [getNode] at h
@@ -365,9 +365,9 @@ theorem getNode_setNodeAt (v : Node) : ∀ (path : Path) (root x : Node), getNod
     | some c =>
       simp only [hl] at h
       simp only [setNodeAt, hl, getNode, alookup_aset, if_true]
-      exact getNode_setNodeAt v rest c x h
+      exact c04_getNode_setNodeAt v rest c x h
 
-theorem alookup_aerase_self {α : Type} (k : Key) : ∀ l : List (Key × α), keysNodup l = true →
+theorem c04_alookup_aerase_self {α : Type} (k : Key) : ∀ l : List (Key × α), keysNodup l = true →
     alookup k (aerase k l) = none
   | [], _ => rfl
   | (k', v) :: rest, h => by
@@ -376,13 +376,13 @@ theorem alookup_aerase_self {α : Type} (k : Key) : ∀ l : List (Key × α), ke
     · subst e
       simp only [aerase, if_true]
       exact (alookup_none_iff k' rest).2 (by simpa using h'.1)
-    · simp [aerase, alookup, e, alookup_aerase_self k rest h'.2]
+    · simp [aerase, alookup, e, c04_alookup_aerase_self k rest h'.2]
 
 /-- a deleting empty container as `other`: `first_not_missing` is always `other` itself -/
-theorem prioGe_empty (vf : Flags) (vk : CompKind) : prioGe (ePrio vf) (.comp vf vk []) = true := by
+theorem c04_prioGe_empty (vf : Flags) (vk : CompKind) : prioGe (ePrio vf) (.comp vf vk []) = true := by
   simp [prioGe, prioGeList]
 
-theorem eDel_of_explicit {n : Node} (h : n.flags.del = some true) : eDel n = true := by
+theorem c04_eDel_of_explicit {n : Node} (h : n.flags.del = some true) : eDel n = true := by
   simp [eDel, h]
 
 end AY
